@@ -10,13 +10,15 @@ export CARGO_NET_OFFLINE=true CARGO_TARGET_DIR=$wt/target
 git checkout -q -- . 
 if git apply --check _seed/patch.diff 2>>$out; then echo "applies: yes" >> $out; else echo "applies: NO" >> $out; exit 1; fi
 git apply _seed/patch.diff
+if [ -z "${SKIP_SUITE:-}" ]; then
 cargo test --workspace --no-fail-fast --offline -j 6 -- --test-threads 6 > _seed/confirm_suite.log 2>&1
 echo "suite_exit_with_change: $?" >> $out
+else echo "suite: reusing earlier confirm_suite.log" >> $out; fi
 echo "suite_ok_binaries: $(grep -c '^test result: ok' _seed/confirm_suite.log) failed_binaries: $(grep -c '^test result: FAILED' _seed/confirm_suite.log) passed_tests: $(grep '^test result' _seed/confirm_suite.log | sed 's/.*ok\. \([0-9]*\) passed.*/\1/' | paste -sd+ | bc)" >> $out
-sh _seed/run.sh > _seed/confirm_demo_with.log 2>&1
+bash _seed/run.sh > _seed/confirm_demo_with.log 2>&1
 echo "demo_exit_with_change: $?" >> $out
 git checkout -q -- .
-sh _seed/run.sh > _seed/confirm_demo_without.log 2>&1
+bash _seed/run.sh > _seed/confirm_demo_without.log 2>&1
 echo "demo_exit_without_change: $?" >> $out
 git apply _seed/patch.diff
 cat $out
